@@ -47,6 +47,8 @@ class PGPluginGroup(wrapt.ObjectProxy):
     # ----
     def get(self, key, version=None):
         """Get a registered plugin group by name."""
+        if self.__wrapped__._is_foreign(key):
+            return None  # e.g. a reference to a plugin of a different group
         key_, vers = plugin_args(key, version)
         if key_ == self.name and (vers is None or vers == self.Plugin.version):
             return self
